@@ -40,12 +40,15 @@ class Drain(threading.Thread):
         self.cv = threading.Condition()
         self.eof = False
         self.stopping = False
+        self._wr, self._ww = os.pipe()          # wakes the thread up when it is told to stop
         self.start()
 
     def run(self):
         while not self.stopping:
             try:
-                r = select.select([self.fd], [], [], 0.25)[0]
+                r = select.select([self.fd, self._wr], [], [], 5)[0]
+                if self.stopping or self._wr in r:
+                    return
                 if not r:
                     continue
                 d = os.read(self.fd, 1 << 18)
@@ -107,7 +110,22 @@ class Drain(threading.Thread):
             return seg
 
     def stop(self):
+        """ends the thread and waits for it: the descriptor must not be read by a stale thread after
+        the caller closed it and the number was reused"""
+        if self._ww is None:
+            return
         self.stopping = True
+        try:
+            os.write(self._ww, b'x')
+        except OSError:
+            pass
+        self.join(5)
+        for fd in (self._wr, self._ww):
+            try:
+                os.close(fd)
+            except OSError:
+                pass
+        self._ww = None
 
 
 class PeerSpawn(pexpect.spawn):
@@ -159,7 +177,8 @@ class Rig(object):
             if self.drain.take_n(1, 20) != b'R':
                 raise Machinery('peer did not come up')
             self.out_fd = os.open('/proc/%d/fd/1' % self.peer_pid, os.O_WRONLY | (os.O_NOCTTY if transport == 'pty' else 0))
-            self._fin.append(lambda: os.close(self.out_fd))
+            self._close_out = lambda: os.close(self.out_fd)
+            self._fin.append(self._close_out)
             if transport == 'pty':
                 cc = termios.tcgetattr(self.out_fd)[6]
                 self.veof, self.vintr = cc[termios.VEOF], cc[termios.VINTR]
@@ -193,6 +212,8 @@ class Rig(object):
         c.logfile_read = self.logs.get('read')
         c.logfile_send = self.logs.get('send')
         self.stdin_open = True
+        self.out_started = False      # utf-16: the child's output starts with a byte-order mark (the stream decoder insists)
+        self.reader_fd = None if transport == 'popen' else c.child_fd
 
     # ---- barrier ----
     def barrier(self):
@@ -211,6 +232,26 @@ class Rig(object):
         t = threading.Thread(target=_write_all, args=(self.out_fd, data), daemon=True)
         t.start()
         return t
+
+    def out_prefix(self):
+        """bytes the child's very first output starts with"""
+        first = not self.out_started
+        self.out_started = True
+        return codecs.BOM_UTF16 if (first and self.mode == 'utf16') else b''
+
+    def discard_input(self, feeder):
+        """a read failed while the feeder thread is still writing the child's output: take it off
+        the transport ourselves so that the thread (and the next steps) are not stuck"""
+        end = time.time() + 30
+        while feeder is not None and feeder.is_alive() and time.time() < end:
+            if self.reader_fd is None:
+                feeder.join(0.05)
+                continue
+            if select.select([self.reader_fd], [], [], 0.05)[0]:
+                try:
+                    os.read(self.reader_fd, 1 << 16)
+                except OSError:
+                    break
 
     def reset_logs(self):
         for l in self.logs.values():
@@ -305,6 +346,12 @@ class Rig(object):
                 except OSError:
                     pass
                 p.wait()
+                try:
+                    os.close(self.out_fd)          # our own handle on the child's stdout: the reader thread sees EOF only without it
+                except OSError:
+                    pass
+                self._fin = [f for f in self._fin if f is not self._close_out]
+                c._read_thread.join(2)
                 for f in (p.stdin, p.stdout):
                     try:
                         f.close()
